@@ -610,7 +610,7 @@ var (
 	endpointsV4  = []string{"10.1.2.3:3868", "127.0.0.1:3868", "10.1.2.3/10.1.2.4:3868"}
 	endpointsV6  = []string{"[2001:db8::1]:3868", "[::1]:3868", "[fe80::1%eth0]:3868"}
 	endpointsAll = append(append([]string{}, endpointsV4...), endpointsV6...)
-	configs      = [][]string{nil, {"192.0.2.10"}, {"198.51.100.7", "2001:db8:ffff::5"}}
+	configs      = [][]string{nil, {"192.0.2.10"}, {"198.51.100.7", "2001:db8:ffff::5"}, {"2001:db8::7"}}
 	idPool       = []uint32{0, 1, 0x12345678, 0xffffffff}
 	inbandPool   = []*uint32{nil, ptr(0), ptr(1)}
 	randomIDs    = []uint32{3, 4, 1, 16777251, 16777238, 16777302, 999, bigID, relayID, 2, 5, 16777216}
